@@ -691,9 +691,10 @@ class PSFPhotometry(ModelImageMixin):
             init_params[fluxcolname] = flux
 
         if 'group_id' in init_params.colnames:
-            # grouper is ignored if group_id is input in init_params
-            self.grouper = None
-        if self.grouper is not None:
+            # the grouper is ignored (but kept for later calls) if
+            # group_id is input in init_params
+            group_id = init_params['group_id']
+        elif self.grouper is not None:
             group_id = self.grouper(init_params[xcolname],
                                     init_params[ycolname])
         else:
